@@ -41,8 +41,15 @@ def split(h, w, pattern):
 def one(ctx, h, w, pattern, single_cycle, prim, be):
     segs = L.segments(h, w)
     s = cspuz.Solver()
-    fr = cspuz.BoolGridFrame(s, h, w)
-    desc = {"frame": [h, w], "single_cycle": single_cycle, "primitive": prim}
+    side = ctx.rng.choice(["own", "own", "own", "h", "v", "both"])
+    hor = s.bool_array((h + 1, w)) if side in ("h", "both") else None
+    ver = s.bool_array((h, w + 1)) if side in ("v", "both") else None
+    kw = {k: v for k, v in (("horizontal", hor), ("vertical", ver)) if v is not None}
+    fr = cspuz.BoolGridFrame(s, h, w, **kw)  # the frame over its own arrays or over arrays the caller supplies (one or both)
+    cvar = lambda sg: (hor[sg[1], sg[2]] if (sg[0] == "h" and hor is not None) else ver[sg[1], sg[2]] if (sg[0] == "v" and ver is not None)  # noqa: E731
+                       else L.frame_var(fr, sg))
+    ctx.count("cross.frame_arrays." + side)
+    desc = {"frame": [h, w], "single_cycle": single_cycle, "primitive": prim, "frame_arrays": side}
     ctx.current_case = {"tag": "cross", "desc": desc, "pattern": list(map(int, pattern))}
     try:
         if single_cycle and sum(pattern) % 2:
@@ -55,7 +62,7 @@ def one(ctx, h, w, pattern, single_cycle, prim, be):
     if passed.shape != (h + 1, w + 1) or cross.shape != (h + 1, w + 1):
         ctx.violation("cross:result-shape", f"returned shapes {passed.shape}/{cross.shape}", ctx.current_case)
         return
-    s.ensure([L.frame_var(fr, sg) if p else ~L.frame_var(fr, sg) for sg, p in zip(segs, pattern)])
+    s.ensure([cvar(sg) if p else ~cvar(sg) for sg, p in zip(segs, pattern)])  # imposed on the arrays the CALLER holds
     s.add_answer_key(passed)
     s.add_answer_key(cross)
     st = msolve.state()
